@@ -597,6 +597,7 @@ func (v *vdrRun) outsHook(job *TAJob, outs map[string]interface{}) {
 			outs[k] = canon(outs[k])
 		}
 	}
+	v.moreShapes(job, stage, params, outs)
 	v.escapeNames(job, outs)
 	// unreferenced material: a directory tree under files/ and files in tmp/
 	rng := rand.New(rand.NewSource(int64(hash64("vdr-extra", job.Key))))
